@@ -73,10 +73,23 @@ def run(tier):
         if isinstance(t, list) and t[0] == "c" and len(t) > 3:
             p = t[:2] + rng.sample(t[2:], len(t) - 2)
             extra.append(p)
+    # every connective applied to two operands in both orders: compared with == (only the commutative ones may be equal), and as the two
+    # sides of an equality / an implication (the construction folds syntactically equal sides)
+    swapped = []
+    bops = [(BATOMS[0], BATOMS[1]), (BATOMS[0], ["c", "not", BATOMS[1]]), (True, BATOMS[0])]
+    iops = [(IATOMS[0], IATOMS[1]), (IATOMS[0], 1), (0, 1), (IATOMS[2], IATOMS[3])]
+    for cn, ops in (("and", bops), ("or", bops), ("=>", bops), ("=", bops), ("=", iops), ("<", iops), ("<=", iops), ("distinct", iops)):
+        for a, b in ops:
+            swapped.append((["c", cn, a, b], ["c", cn, b, a]))
+    for f, g in swapped:
+        trees += [["c", "=", f, g], ["c", "=>", ["c", "=", f, g], BATOMS[2]], ["c", "and", f, ["c", "not", g]], ["c", "or", f, g]]
     base = len(trees)
     trees += pool_trees + extra
     idxs = list(range(base, len(trees)))
     pairs = [(i, j) for i in idxs for j in rng.sample(idxs, 6)] + [(i, i) for i in idxs]
+    for f, g in swapped:
+        trees += [f, g]
+        pairs += [(len(trees) - 2, len(trees) - 1), (len(trees) - 1, len(trees) - 2)]
     chunks, per = [], 4000
     tasks = []
     for k in range(0, base, per):
